@@ -14,10 +14,16 @@ import (
 func main() {
 	out := flag.String("out", "", "output directory")
 	mr := flag.String("maprange", "", "comma-separated range operands (maps) whose iteration order is explored")
+	ms := flag.String("mapsorted", "", "comma-separated range operands (maps) iterated in sorted key order")
 	flag.Parse()
 	for _, m := range strings.Split(*mr, ",") {
 		if m != "" {
-			rewrite.MapRange[m] = true
+			rewrite.MapRange[m] = "choose"
+		}
+	}
+	for _, m := range strings.Split(*ms, ",") {
+		if m != "" {
+			rewrite.MapRange[m] = "sorted"
 		}
 	}
 	if *out == "" || flag.NArg() == 0 {
